@@ -351,7 +351,7 @@ Section Model.
       if o_scalar o then (st, RErr) else
       match index (o_vals o) it, index_jd (o_jd o) it with
       | Some vs, Some r =>
-        if q_rebuild q && is_int it && multi (o_fmt o) then (st, RErr)
+        if q_rebuild q && is_int it && (o_fmt o =? 2) then (st, RErr)   (* the element of a text / datetime array is a bare value *)
         else new_obj q st (mkObj (is_int it) vs r (o_fmt o) (o_scale o) None)
       | _, _ => (st, RErr)
       end
@@ -713,3 +713,32 @@ Definition check_idx (c : Z * obsres * obsres) : Z :=
          | _, _ => 1
          end
   end.
+
+(* subset(idx, memo) under a memo shared by several arrays (Dataset.subset): the memo is keyed by the *identity* of
+   the array.  A call = (identity of the array, its observation, index, what was returned, position of the earlier
+   call whose result object was returned again or -1).  Specification: an identity seen before gives that very
+   object again; otherwise the result is the array's own rows / jd1 / jd2 / derived format at the index, whatever
+   other arrays (equal epochs, other format, other indices) went through the memo before. *)
+Definition subset_obs (a : oobs) (it : item) : obsres :=
+  match index (b_vals a) it, index (jo_list (b_jd1 a)) it, index (jo_list (b_jd2 a)) it, index (jo_list (b_der a)) it with
+  | Some vs, Some j1, Some j2, Some d =>
+    OObj (mkO false vs (A1 j1) (A1 j2) (Z.of_nat (length vs)) (A1 d) (b_fmt a) (b_scale a))
+  | _, _, _, _ => OErr
+  end.
+
+Fixpoint check_memo_from (memo : list (Z * (Z * obsres))) (n : Z)
+         (calls : list (Z * oobs * item * obsres * Z)) : Z :=
+  match calls with
+  | [] => 0
+  | (ident, a, it, res, again) :: r =>
+    match assocd Z.eqb (-1, OErr) ident (map (fun e => (fst e, snd e)) memo), existsb (fun e => fst e =? ident) memo with
+    | (m, mres), true =>
+      if obsres_eqb res mres && (again =? m) then check_memo_from memo (n + 1) r else 1
+    | _, false =>
+      let expected := subset_obs a it in
+      if obsres_eqb res expected && (again =? -1)
+      then check_memo_from (match expected with OErr => memo | _ => (ident, (n, expected)) :: memo end) (n + 1) r
+      else 1
+    end
+  end.
+Definition check_memo (calls : list (Z * oobs * item * obsres * Z)) : Z := check_memo_from [] 0 calls.
